@@ -206,6 +206,24 @@ static struct spec specs[MAXL];
 static int nspecs;
 static int loaded_by = -1;
 
+/* link-level spies (-Wl,--wrap): what the two post-load stages of load_module really returned (-99: not called).
+ * The values are handed to the model, which has to predict load_module's return code from them. */
+int __real_libxmp_prepare_scan(struct context_data *);
+int __real_libxmp_scan_sequences(struct context_data *);
+static int spy_prep = -99, spy_scan = -99;
+
+int __wrap_libxmp_prepare_scan(struct context_data *ctx)
+{
+	spy_prep = __real_libxmp_prepare_scan(ctx);
+	return spy_prep;
+}
+
+int __wrap_libxmp_scan_sequences(struct context_data *ctx)
+{
+	spy_scan = __real_libxmp_scan_sequences(ctx);
+	return spy_scan;
+}
+
 static int synth_test(int i, HIO_HANDLE *f, char *t, const int start)
 {
 	struct spec *sp = &specs[i];
@@ -257,6 +275,35 @@ static int synth_load(int i, struct module_data *m, HIO_HANDLE *f, const int sta
 	mod->ins = 1;
 	mod->smp = 1;
 	mod->xxo[0] = 0;
+	/* sane >= 2: a loadable module whose order list is what the post-load stages choke on or have to cope with */
+	if (sp->sane >= 2)
+		m->quirk |= QUIRK_MARKER;	/* 0xfe / 0xff are markers, as in S3M and IT */
+	switch (sp->sane) {
+	case 2:		/* end marker first, the pattern after it */
+		mod->len = 2;
+		mod->xxo[0] = 0xff;
+		mod->xxo[1] = 0;
+		break;
+	case 3:		/* nothing but markers */
+		mod->len = 2;
+		mod->xxo[0] = 0xff;
+		mod->xxo[1] = 0xfe;
+		break;
+	case 4:		/* skip marker first */
+		mod->len = 2;
+		mod->xxo[0] = 0xfe;
+		mod->xxo[1] = 0;
+		break;
+	case 5:		/* no orders at all */
+		mod->len = 0;
+		break;
+	case 6:		/* an order that names no pattern, then the end marker, then the pattern */
+		mod->len = 3;
+		mod->xxo[0] = 7;
+		mod->xxo[1] = 0xff;
+		mod->xxo[2] = 0;
+		break;
+	}
 	if (!sp->sane) {
 		mod->chn = XMP_MAX_CHANNELS + 1;
 		return 0;
@@ -287,6 +334,9 @@ static struct format_loader synth[MAXL] = {
 	{ NULL, st4, sl4 }, { NULL, st5, sl5 }, { NULL, st6, sl6 }, { NULL, st7, sl7 },
 };
 
+/* order-list modes (sane >= 2) only where the observed post-load results are passed to the model (mode `table`) */
+static int post_modes;
+
 static void gen_table(int want_pw)
 {
 	int i, j, pwslot = -1;
@@ -312,7 +362,7 @@ static void gen_table(int want_pw)
 			sp->traw[j] = rnd_title_byte(0);
 		sp->lrc = vrng_chance(80) ? 0 : -1;
 		sp->lmode = vrng_below(3);
-		sp->sane = !vrng_chance(10);
+		sp->sane = vrng_chance(10) ? 0 : (post_modes && vrng_chance(35)) ? vrng_range(2, 6) : 1;
 		synth[i].name = sp->name;
 		vt_set(i, &synth[i]);
 	}
@@ -425,15 +475,24 @@ static void case_table(void)
 	unsigned char *data;
 	long size;
 	xmp_context ctx;
-	int rc;
+	int rc, lrc;
 
+	post_modes = 1;
 	gen_table(vrng_chance(40));
+	post_modes = 0;
 	data = gen_data(&size);
 	print_table();
 	print_env(data, size);
 	fill_info(&ti);
 	tip = vrng_chance(12) ? NULL : &ti;
 	print_info_q(tip);
+
+	/* the load first: the observed results of libxmp_prepare_scan / libxmp_scan_sequences are inputs of the model */
+	ctx = xmp_create_context();
+	loaded_by = -1;
+	spy_prep = spy_scan = -99;
+	lrc = xmp_load_module_from_memory(ctx, data, size);
+	printf("Q post %d %d\n", spy_prep, spy_scan);
 	printf("Q run ");
 	put_hex(stdout, data, size);
 	printf("\n");
@@ -443,9 +502,7 @@ static void case_table(void)
 	print_info_a(tip);
 	printf("\n");
 
-	ctx = xmp_create_context();
-	loaded_by = -1;
-	rc = xmp_load_module_from_memory(ctx, data, size);
+	rc = lrc;
 	printf("A load %d %d ", rc, loaded_by >= 0);
 	if (rc == 0) {
 		xmp_get_module_info(ctx, &mi);
